@@ -12,6 +12,7 @@ package checks
 //     single-token mutations that the grammar rejects must produce a syntax error.
 
 import (
+	"encoding/json"
 	"fmt"
 	"os"
 	"path/filepath"
@@ -92,6 +93,58 @@ const (
 )
 
 // c19Artefacts returns the first mismatch ("" = all consistent) and the number of comparisons.
+// c19RuntimeVocab: the vocabularies the generated Go package REPORTS when it runs (rule names, literal and symbolic
+// token names of parser and lexer), read in two fresh processes - one creating the parser before the lexer, one the
+// other way round - equal each other and equal what the two .g4 files declare. Independent of how the generated source
+// spells its tables.
+func c19RuntimeVocab() (string, int) {
+	n := 0
+	g := repoGrammar()
+	v := g4.ParseLexerVocab(c19Read("OpenFGALexer.g4"))
+	var first map[string][]string
+	for _, order := range []string{"parser-first", "lexer-first"} {
+		resp, ok := runChild(childReq{Op: "vocab", Text: order}, 60*time.Second)
+		if !ok || resp.Panic != "" {
+			if resp.Panic != "" {
+				return fmt.Sprintf("creating the generated parser and lexer in a fresh process (%s) panicked: %s", order, resp.Panic), n
+			}
+			return "cannot run the child process for the run-time vocabulary", n
+		}
+		var tab map[string][]string
+		if err := json.Unmarshal([]byte(resp.Result), &tab); err != nil {
+			return "cannot parse the child's vocabulary dump", n
+		}
+		n += 6
+		if !eqStrs(tab["parser.rules"], g.Order) {
+			return fmt.Sprintf("fresh process, %s: the Go parser reports rule names %v, OpenFGAParser.g4 declares %v", order, tab["parser.rules"], g.Order), n
+		}
+		for _, half := range []string{"parser", "lexer"} {
+			sym := tab[half+".symbolic"]
+			if len(sym) < 2 || !eqStrs(sym[1:], v.Tokens) {
+				return fmt.Sprintf("fresh process, %s: the Go %s reports symbolic token names %v, OpenFGALexer.g4 declares %v", order, half, sym, v.Tokens), n
+			}
+			lit := tab[half+".literal"]
+			for name, l := range v.Literals {
+				for i, s := range sym {
+					if s == name && (i >= len(lit) || lit[i] != "'"+l+"'") {
+						return fmt.Sprintf("fresh process, %s: the Go %s reports literal %q for token %s, OpenFGALexer.g4 has %q", order, half, safeIdx(lit, i), name, l), n
+					}
+				}
+			}
+		}
+		if first == nil {
+			first = tab
+		} else {
+			for k := range tab {
+				if !eqStrs(tab[k], first[k]) {
+					return fmt.Sprintf("the run-time vocabulary %s of the Go package depends on whether parser or lexer is created first: %v vs %v", k, first[k], tab[k]), n
+				}
+			}
+		}
+	}
+	return "", n
+}
+
 func c19Artefacts() (string, int) {
 	n := 0
 	for _, gr := range []string{"Parser", "Lexer"} {
@@ -443,7 +496,11 @@ func TestC19(t *testing.T) {
 	rec.Assume("the JS and Java parsers cannot be executed here (no antlr4 runtime for them offline): their behaviour is tied to Go's by ATN, vocabulary and code-skeleton equality",
 		"the lexer artefacts are tied together by ATN/vocabulary equality; their agreement with OpenFGALexer.g4 is exercised through the documents of C01/C03")
 	if ev.Shard() == 0 {
-		msg, n := c19Artefacts()
+		msg, n := c19RuntimeVocab()
+		if msg == "" {
+			m2, n2 := c19Artefacts()
+			msg, n = m2, n+n2
+		}
 		if msg == "" {
 			m2, n2 := c19LexStructure()
 			msg, n = m2, n+n2
